@@ -100,6 +100,12 @@ def h_pexpr(c):
     r["get"] = [enc(p[k]) for k in c.get("keys", [])]
     if "angles" in c:
         r["eval"] = enc(numpy.asarray(p.eval(numpy.array(dec(c["angles"]))), dtype=complex))
+    if c.get("aligned_pad") is not None:
+        i, j = c["aligned_pad"]
+        try:
+            r["aligned_pad"] = enc(numpy.asarray(p.aligned(p.dmin - 2 * i, p.dmax + 2 * j)))
+        except Exception:
+            r["aligned_pad"] = None
     if c.get("aligned") is not None:
         a, b = c["aligned"]
         r["aligned"] = enc(p.aligned(a, b))
